@@ -655,6 +655,13 @@ pub fn eval_ref_plain(p: &Program) -> Option<RefRun<f64>> {
     eval_ref::<f64>(p, &|_, d, x| T::from_f64(d, x), None)
 }
 
+/// Per node: the largest running error scale of its elements (see `VA`), the magnitude a floating-point evaluation of
+/// the node's value is uncertain relative to - terms cancelled inside a fused operation or upstream included.
+pub fn value_scales(p: &Program) -> Option<Vec<f64>> {
+    let run = eval_ref::<VA>(p, &|_, d, x| T::from_f64(d, x), None)?;
+    Some(run.vals.iter().map(|t| t.v.iter().fold(1.0f64, |m, e| m.max(e.s + e.v.abs()))).collect())
+}
+
 /// Run the program on the real library. Returns every node's handle.
 thread_local! {
     /// how `eval_corgi` gives leaves their tracking state: false - by value at creation (`arr.tracked()` / plain);
@@ -751,23 +758,26 @@ pub fn expected_gradient_scaled(p: &Program, m: usize, seed: &[f64], root: usize
         let out = &run.vals[root];
         g[j] = out.v.iter().zip(seed).map(|(o, sd)| o.d * sd).sum();
         if !exact {
+            // forward mode over (value, running error scale): the scale of a derivative covers the terms it is summed from
+            // and the amplified rounding of the forward values it is built from
+            type DV = Dual<VA>;
             let run = if is_leaf {
-                eval_ref::<DA>(
+                eval_ref::<DV>(
                     p,
                     &|i, d, x| {
-                        let mut t: T<DA> = T::from_f64(d, x);
+                        let mut t: T<DV> = T::from_f64(d, x);
                         if i == m {
-                            t.v[j].a = 1.0;
+                            t.v[j].d = VA { v: 1.0, s: 0.0 };
                         }
                         t
                     },
                     None,
                 )?
             } else {
-                let f = move |t: &mut T<DA>| t.v[j].a += 1.0;
-                eval_ref::<DA>(p, &|_, d, x| T::from_f64(d, x), Some((m, &f)))?
+                let f = move |t: &mut T<DV>| t.v[j].d = t.v[j].d + VA { v: 1.0, s: 0.0 };
+                eval_ref::<DV>(p, &|_, d, x| T::from_f64(d, x), Some((m, &f)))?
             };
-            scale[j] = run.vals[root].v.iter().zip(seed).map(|(o, sd)| o.a * sd.abs()).sum();
+            scale[j] = run.vals[root].v.iter().zip(seed).map(|(o, sd)| (o.d.s + o.d.v.abs()) * sd.abs()).sum();
         } else {
             // not asked for the path sums: the magnitude of the gradient itself is a lower bound of them (it matters
             // when this contribution is later added to ones that are compared with tolerance)
